@@ -14,7 +14,8 @@
    (handler called with peer identity j), [WUnknown] (reset as coming from an unknown peer) or
    [WTorn] (could not be opened because the responder closed the connection). *)
 From Coq Require Import List NArith Bool Arith.
-From MevVerif Require Import lib.Bytes gen.Generated model.ConnectRace proofs.ConnectRace_proofs.
+From MevVerif Require Import lib.Bytes gen.Generated model.ConnectRace proofs.ConnectRace_proofs
+  proofs.ConnectRace_progress.
 Import ListNotations.
 Open Scope N_scope.
 
@@ -191,8 +192,8 @@ Print Assumptions C20_usable_mutual_dial_v1_refuted.
    coming from an unknown peer, and what reached B's handlers carries A's proven identity.  The
    statement for the streams B opens is this one with a and b exchanged (wrappers only observe).
    Premise as in C20_usable.  Simplifications: the isConnected test and beginHandshake of a dialling
-   Connect are one step; the model is the current code (both brackets); progress (handled after
-   finitely many steps) is proved for the one-directional and the mutual-dial worlds only. *)
+   Connect are one step; the model is the current code (both brackets); progress and the absence of deadlock in this
+   world: C20_cross_dial_progress, C20_cross_dial_no_deadlock below. *)
 Theorem C20_usable_cross_dial : forall (a b : node) (sched : list xwho) (id : ident),
   ks_addr b = pid_addr b ->
   ret1 (xrun a b sched) = Some id ->
@@ -203,6 +204,80 @@ Theorem C20_usable_cross_dial : forall (a b : node) (sched : list xwho) (id : id
          (sA (xrun a b sched)).
 Proof. exact C20_cross_stmt. Qed.
 Print Assumptions C20_usable_cross_dial.
+
+(* PROGRESS of the cross dial.  [xcan x e]: actor e is enabled in x -- a Connect or a handler
+   that is not waiting for a message that has not been sent and has not returned, a wrapper that
+   has not ended and is not waiting for a handshake on record.  C20_cross_dial_enabled: this is
+   the enabledness of the step function (an enabled step changes the state, any other step
+   changes nothing but the two wrapper lists of the base worlds, which the cross world does not use).
+   [xfair n sched]: sched begins with n rounds, a round being any stretch in which XD1, XD2, XR1
+   and XR2 each occur at least once (with anything in between); what follows the rounds is
+   arbitrary.  [x_rounds] = 40.  [wsteps k t]: number of occurrences of XW k in t.
+   For every schedule that begins with 40 rounds, both Connects have returned (shortcut, success
+   or error) and both handlers have finished, and this remains so under every continuation t;
+   every stream A has opened by the end of sched -- streams opened arbitrarily late included, since
+   sched may go on arbitrarily after its rounds -- is handled by B with A's proven identity as soon
+   as its wrapper has been scheduled three times.  No premise on the nodes but the one of
+   C20_usable; the bound holds whether the handshakes succeed or fail. *)
+Theorem C20_cross_dial_progress :
+  forall (a b : node) (sched t : list xwho) (k : nat) (s : wstate),
+  ks_addr b = pid_addr b ->
+  xfair x_rounds sched ->
+  nth_error (sA (xrun a b sched)) k = Some s ->
+  (3 <= wsteps k t)%nat ->
+  xfinal (xrun a b sched) /\ xfinal (xrun a b (sched ++ t)) /\
+  nth_error (sA (xrun a b (sched ++ t))) k = Some (WHandled (pid_addr a, ptype a)).
+Proof. exact cross_progress. Qed.
+Print Assumptions C20_cross_dial_progress.
+
+(* the handshake half without any premise on the nodes *)
+Theorem C20_cross_dial_connects_return : forall (a b : node) (sched : list xwho),
+  xfair x_rounds sched -> xfinal (xrun a b sched).
+Proof. exact cross_handshakes_finish. Qed.
+Print Assumptions C20_cross_dial_connects_return.
+
+(* ... and with success when both nodes are well formed (the signature in a node's request binds
+   its peer id, its key signer reports the address of its network identity, and a provider is
+   staked at the other node's registry): after 40 rounds each Connect -- through its own handshake
+   or through the shortcut -- has returned the other node's proven identity.  [ret2] is [ret1] for
+   B's Connect(A).  Without the staking premise Connect fails (non-vacuity example beside the lemma). *)
+Theorem C20_cross_dial_connects_succeed : forall (a b : node) (sched : list xwho),
+  (sig_addr a = Some (pid_addr a) /\ ks_addr a = pid_addr a /\ (ptype a = t_provider -> staked a = true)) ->
+  (sig_addr b = Some (pid_addr b) /\ ks_addr b = pid_addr b /\ (ptype b = t_provider -> staked b = true)) ->
+  xfair x_rounds sched ->
+  ret1 (xrun a b sched) = Some (pid_addr b, ptype b) /\
+  ret2 (xrun a b sched) = Some (pid_addr a, ptype a).
+Proof. exact cross_connects_succeed. Qed.
+Print Assumptions C20_cross_dial_connects_succeed.
+
+(* fairness in its usual form is enough for the bound: an enabled Connect or handler stays enabled
+   under the steps of all other actors until it is scheduled itself, and while a handshake is
+   unfinished one of the four is enabled *)
+Theorem C20_cross_dial_enabled_persists : forall (a b : node) (x : xworld) (e e' : xwho),
+  (e = XD1 \/ e = XD2 \/ e = XR1 \/ e = XR2) -> e' <> e ->
+  xcan x e = true -> xcan (xstep a b x e') e = true.
+Proof. exact xcan_persist. Qed.
+Print Assumptions C20_cross_dial_enabled_persists.
+
+(* NO DEADLOCK.  A reachable state in which no Connect, no handler and no wrapper is enabled (the
+   application may still open streams: XO) is a final state: both Connects have returned, both
+   handlers have finished, every stream A opened has reached its end, and under the premise of
+   C20_usable that end is a handler call with A's proven identity. *)
+Theorem C20_cross_dial_no_deadlock : forall (a b : node) (sched : list xwho),
+  (forall e, e <> XO -> xcan (xrun a b sched) e = false) ->
+  xfinal (xrun a b sched) /\
+  Forall (fun s => wfinal s = true) (sA (xrun a b sched)) /\
+  (ks_addr b = pid_addr b ->
+   Forall (fun s => s = WHandled (pid_addr a, ptype a)) (sA (xrun a b sched))).
+Proof. exact cross_no_deadlock. Qed.
+Print Assumptions C20_cross_dial_no_deadlock.
+
+Theorem C20_cross_dial_enabled : forall (a b : node) (x : xworld) (e : xwho),
+  e <> XO ->
+  (xcan x e = true -> xstep a b x e <> x) /\
+  (xcan x e = false -> xerase (xstep a b x e) = xerase x).
+Proof. exact xcan_is_step. Qed.
+Print Assumptions C20_cross_dial_enabled.
 
 (* The wrapper as it was before the repair (no record of handshakes in progress, no waiting):
    two well-formed nodes and a schedule -- final write, return, open, lookup, then register --
